@@ -385,7 +385,7 @@ func latticeCbrtArg(t *rapid.T) (D, bool) {
 	}
 	p1 := new(big.Int).Neg(a)
 	an := new(big.Int).Neg(new(big.Int).Mul(p1, v[0])) // p0 v1 - p1 v0 with p0 = 0
-	bn := new(big.Int).Mul(u[0], p1)                    // u0 p1 - u1 p0
+	bn := new(big.Int).Mul(u[0], p1)                   // u0 p1 - u1 p0
 	if det.Sign() < 0 {
 		det.Neg(det)
 		an.Neg(an)
